@@ -344,7 +344,9 @@ func nonCanonicalSamples(kind string) []interface{} {
 	switch kind {
 	case "XMLSchemaDateTime":
 		// fractional seconds, extreme offsets
-		return []interface{}{"2016-05-10T00:00:00.5Z", "2016-05-10T00:00:00.123456789+01:00", "1999-12-31T23:59:59.999-12:00", "2020-02-29T23:59:59.000001+14:00"}
+		return []interface{}{"2016-05-10T00:00:00.5Z", "2016-05-10T00:00:00.123456789+01:00", "1999-12-31T23:59:59.999-12:00", "2020-02-29T23:59:59.000001+14:00",
+			// the form without a seconds field, which the codec reads with a layout of its own; an explicit zero offset
+			"2020-01-01T10:00Z", "2020-01-01T10:00+01:00", "1999-12-31T23:59-12:00", "2020-06-30T12:00:00+00:00", "2020-06-30T12:00:00-00:00"}
 	case "XMLSchemaDuration":
 		// counts are decimal whatever their spelling: leading zeros, and
 		// components beyond their carry (36 hours, 90 minutes, 400 days)
